@@ -576,6 +576,8 @@ class Verifier:
     def obj_attr_hook(self, I, base, attr, node):
         key = f"{base.cls.rsplit('.', 1)[-1]}.{attr}"
         pol = self.c.attrs.get(key) or self.default_policies.get("attrs", {}).get(key)
+        if isinstance(pol, tuple) and pol[0] == "property":
+            return pol[1](I, base)  # a computed attribute (e.g. Path.name == stem + suffix), not a method
         if callable(pol):
             return lambda I2, *a, **k: pol(I2, [base] + list(a), k, node)
         return _MISSING
